@@ -111,5 +111,36 @@ pub open spec fn l_wf(n: int, lp: Seq<usize>, li: Seq<usize>, lx: Seq<F>) -> boo
     ensures final(b)@.len() == old(b)@.len(),
 //@end
 
+// ------------------------------------------------------------------ permutations
+pub open spec fn in_range(p: Seq<usize>, n: int) -> bool { forall|i: int| 0 <= i < p.len() ==> #[trigger] p[i] < n }
+
+//@fn file=src/qdldl/qdldl.rs name=permute rules=R1,R17,R10,zipidx:1=im,drop:debug_assert!(
+//@contract
+    requires in_range(p@, b@.len() as int),
+    ensures
+        final(x)@.len() == old(x)@.len(),
+        // x[i] = b[p[i]] for the common prefix (zip semantics); the rest of x is untouched
+        forall|i: int| 0 <= i < p@.len() && i < old(x)@.len() ==> #[trigger] final(x)@[i] == b@[p@[i] as int],
+        forall|i: int| p@.len() <= i < old(x)@.len() ==> #[trigger] final(x)@[i] == old(x)@[i],
+//@loop 1
+        invariant x@.len() == old(x)@.len(), in_range(p@, b@.len() as int), r14_n1 <= p@.len(), r14_n1 <= x@.len(),
+            forall|i: int| 0 <= i < r14_i1 ==> #[trigger] x@[i] == b@[p@[i] as int],
+            forall|i: int| r14_i1 <= i < x@.len() ==> #[trigger] x@[i] == old(x)@[i],
+//@end
+//@fn file=src/qdldl/qdldl.rs name=ipermute rules=R1,R17,R10,zipidx:1=ii,drop:debug_assert!(
+//@contract
+    requires in_range(p@, old(x)@.len() as int),
+    ensures
+        final(x)@.len() == old(x)@.len(),
+        // x[p[i]] = b[i]; positions that are not an image of p keep their value
+        forall|i: int| 0 <= i < p@.len() && i < b@.len() && (forall|i2: int| i < i2 < p@.len() && i2 < b@.len() ==> p@[i2] != p@[i])
+            ==> final(x)@[#[trigger] p@[i] as int] == b@[i],
+        forall|s: int| 0 <= s < old(x)@.len() && (forall|i: int| 0 <= i < p@.len() && i < b@.len() ==> p@[i] != s) ==> #[trigger] final(x)@[s] == old(x)@[s],
+//@loop 1
+        invariant x@.len() == old(x)@.len(), in_range(p@, x@.len() as int), r14_n1 <= p@.len(), r14_n1 <= b@.len(),
+            forall|i: int| 0 <= i < r14_i1 && (forall|i2: int| i < i2 < r14_i1 ==> p@[i2] != p@[i]) ==> x@[#[trigger] p@[i] as int] == b@[i],
+            forall|s: int| 0 <= s < x@.len() && (forall|i: int| 0 <= i < r14_i1 ==> p@[i] != s) ==> #[trigger] x@[s] == old(x)@[s],
+//@end
+
 } // verus!
 fn main() {}
